@@ -48,6 +48,10 @@ def render_expr(e, world, me):
         sp = r["space"] if r["space"] is not None else me["space"]
         return "_model.S%d.r%d" % (sp, e[1])
     if t == "raise":
+        if world.get("shared_exc") and e[1] in ("key", "zero"):
+            # the SAME exception object is raised every time (model-level references SHX_key / SHX_zero set by the
+            # driver): its traceback accumulates the frames of the earlier failures
+            return "(_ for _ in ()).throw(SHX_%s)" % e[1]
         return RAISE_SRC[e[1]]
     raise ValueError(e)
 
@@ -248,6 +252,7 @@ class Gen:
         self.p_derived = kw.get("p_derived", 0.0)    # cells realised as derived copies of a base space's cells
         self.p_fin_world = kw.get("p_fin_world", 0.0)  # share of worlds whose formulas may use try/finally (SFin)
         self.fin = False
+        self.p_shared_exc = kw.get("p_shared_exc", 0.0)   # share of worlds whose KeyError / ZeroDivisionError are ONE object each
 
     def val(self):
         return self.rng.randint(-3, 6)
@@ -300,7 +305,7 @@ class Gen:
         r = self.rng
         later = [c["cid"] for c in w["cells"] if c["cid"] > me["cid"]]
         rec = [c["cid"] for c in w["cells"] if c["cid"] <= me["cid"] and c["nparams"] >= 1] \
-            if (me["nparams"] and r.random() < self.recursion) else []
+            if (me["nparams"] and r.random() < getattr(self, "rec_now", self.recursion)) else []
         n = r.randint(1, 3)
         body = []
         for i in range(n):
@@ -330,9 +335,23 @@ class Gen:
     def world(self):
         r = self.rng
         self.fin = self.p_fin_world > 0 and r.random() < self.p_fin_world
+        # a clean-up runs also while the depth-limit error passes, and what it evaluates under a failing frame is never
+        # cached: with recursion the work grows like fanout ** maxdepth.  Worlds with try/finally either have no
+        # recursion or a small depth limit
+        self.rec_now = self.recursion
+        small_depth = False
+        if self.fin:
+            if r.random() < 0.5:
+                self.rec_now = 0.0
+            else:
+                small_depth = True
         nsp = r.randint(*self.nspaces)
         nc = r.randint(*self.ncells)
         w = {"nspaces": nsp, "cells": [], "refs": [], "maxdepth": r.randint(*self.maxdepth)}
+        if small_depth:
+            w["maxdepth"] = r.randint(3, 6)
+        if self.p_shared_exc and r.random() < self.p_shared_exc:
+            w["shared_exc"] = True
         for i in range(r.randint(*self.nrefs)):
             w["refs"].append({"rid": i, "space": r.choice([None] + list(range(nsp))), "val": self.val()})
         for c in range(nc):
